@@ -187,4 +187,41 @@ theorem logAct_head {α : Type} (A : Arith α) (s : St α) (tag verb : String) (
 /-- the sort behind `byTieOrder` / `byVote` only reorders: nobody is added or lost -/
 theorem tie_order_is_a_permutation {α : Type} (l : List (Cand α)) : (byTieOrder l).Perm l := pySorted_perm _ _ l
 
+/-! ## batches are sure losers, and enough candidates remain
+
+`batchDefeatGroups` is the sure-loser search of wigm-prf-batch, meek and warren (`defeat_batch=safe`); `mplsCertainLosers` is
+Minneapolis 167.70(c)(1)b. Both return a prefix of the hopefuls in tally order (`batchDefeatGroups_sure`,
+`mplsCertainLosers_sure` in `DroopProofs/SureLosers.lean`): the combined tallies of the batch plus the surplus are below the tally
+of the next candidate in that order. `batchDefeatGroups_bound`, `mplsDefeatSet_bound` and `cferBatch_enough` say that the batch
+never takes more candidates than `hopeful − open seats`. -/
+
+theorem fixed_lt_sound (p : Nat) (a b : Int) (h : (fixedArith p).lt a b = true) : a < b := by
+  by_contra hge
+  have hn : ¬ a < b := hge
+  have h' : decide (intCmp a b < 0) = true := h
+  unfold intCmp at h'
+  simp only [hn, if_false] at h'
+  by_cases he : (a == b) = true
+  · simp [he] at h'
+  · simp [he] at h'
+
+theorem prf_batch_is_sure_losers (p : Nat) (s : St Int) (surplus : Int) (hne : batchDefeatGroups (fixedArith p) s surplus ≠ []) :
+    ∃ c0 rest, byVote (fixedArith p) false s.hopeful = batchDefeatGroups (fixedArith p) s surplus ++ c0 :: rest
+      ∧ votesOf (batchDefeatGroups (fixedArith p) s surplus) + surplus < c0.vote := by
+  obtain ⟨c0, rest, h1, h2⟩ := batchDefeatGroups_sure (fixedArith p) (fixed_lawful p) s surplus hne
+  exact ⟨c0, rest, h1, fixed_lt_sound p _ _ h2⟩
+
+theorem mpls_certain_losers_are_sure_losers (p : Nat) (s : St Int) (surplus : Int)
+    (hne : mplsCertainLosers (fixedArith p) s surplus ≠ []) :
+    ∃ k c0, (mplsCertainLosers (fixedArith p) s surplus).Perm ((byVote (fixedArith p) false s.hopeful).take k)
+      ∧ (byVote (fixedArith p) false s.hopeful)[k]? = some c0
+      ∧ votesOf ((byVote (fixedArith p) false s.hopeful).take k) + surplus < c0.vote := by
+  obtain ⟨k, c0, h1, h2, h3⟩ := mplsCertainLosers_sure (fixedArith p) (fixed_lawful p) s surplus hne
+  exact ⟨k, c0, h1, h2, fixed_lt_sound p _ _ h3⟩
+
+theorem prf_batch_leaves_enough (p : Nat) (s : St Int) (surplus : Int) :
+    ((batchDefeatGroups (fixedArith p) s surplus).length : Int) ≤ (s.hopeful.length : Int) - s.seatsLeft
+    ∨ batchDefeatGroups (fixedArith p) s surplus = [] :=
+  batchDefeatGroups_bound (fixedArith p) s surplus
+
 end Droop.C07
